@@ -53,6 +53,11 @@ func routeInstances(tier string) []explore.Params {
 		}
 		return out
 	}
+	// staggered pairs on one dialling side: id B is accepted at 0 and dialled while id A's dial is still
+	// waiting for its accept (a dial must not be delayed by another id's pending dial)
+	for _, s := range []string{"h", "p"} {
+		out = append(out, explore.Params{"pat": s + "A1500," + s + "D4600@1000"}, explore.Params{"pat": s + "A2500," + s + "D4900@500"})
+	}
 	for _, a := range one {
 		for _, b := range one {
 			if tier != "pairs-all" && (strings.HasSuffix(a, "2000") || strings.HasSuffix(b, "2000")) {
@@ -98,11 +103,14 @@ func init() {
 			x.Data["d"] = d
 			for i, pat := range strings.Split(p["pat"], ",") {
 				id := uint32(10 + i)
-				ds, order, gap := pat[0], pat[1], ms(pat[2:])
+				ds, order, gap, start := parsePat(pat)
 				db, ddom := pr.side(ds)
 				ab, adom := pr.side(other(ds))
 				tag := fmt.Sprintf("id=%d", id)
 				x.Go(adom, func() {
+					if start > 0 {
+						x.Pause(start)
+					}
 					if order == 'D' {
 						x.Pause(gap)
 					}
@@ -113,6 +121,9 @@ func init() {
 					})
 				})
 				d.goIn(ddom, fmt.Sprintf("dial%d", id), func() {
+					if start > 0 {
+						x.Pause(start)
+					}
 					if order == 'A' {
 						x.Pause(gap)
 					}
@@ -151,7 +162,7 @@ func init() {
 			if x.TimeDevs == 0 {
 				for i, pat := range strings.Split(p["pat"], ",") {
 					id := 10 + i
-					if ms(pat[2:]) < 5000 {
+					if _, _, g, _ := parsePat(pat); g < 5*time.Second {
 						if e, ok := x.Data[fmt.Sprintf("derr%d", id)]; ok {
 							x.Fail("T", "id %d (gap %sms inside the pending window): %v", id, pat[2:], e)
 						}
